@@ -34,6 +34,16 @@ int main(int argc, char** argv) {
       ++o.evaluations;
       gen::MssmPoint p = gen::rand_mssm(r, 300, r.chance(0.5) ? 1500 : 3000, 1.5, 80);
       for (int g = 0; g < 3; ++g) p.Ae[g] = r.U(-1, 1) * 300;
+      // exact ties of the base point (benchmark shapes: 'all SUSY masses equal M_SUSY', bino = smuons, wino = higgsino): the arguments of the loop functions then
+      // differ only by the electroweak terms and run into the degenerate branches as k grows
+      { const int tie = r.range(12); const double M = std::fabs(p.m1);
+        auto sg = [](double x) { return x < 0 ? -1.0 : 1.0; };
+        if (tie == 0) { p.mu = sg(p.mu) * M; p.m2 = sg(p.m2) * M; p.m3 = sg(p.m3) * M; p.ma = M; p.Q = M; for (int g = 0; g < 3; ++g) { p.ml[g] = M; p.me[g] = M; p.mq[g] = M; p.mU[g] = M; p.mD[g] = M; } }
+        else if (tie == 1) { p.ml[1] = M; p.me[1] = M; }
+        else if (tie == 2) { p.m2 = sg(p.m2) * std::fabs(p.mu); }
+        else if (tie == 3) { p.ml[1] = p.me[1]; p.ml[2] = p.me[2]; }
+        else if (tie == 4) { p.mu = sg(p.mu) * M; p.m2 = sg(p.m2) * M; p.ml[1] = M; }
+        if (tie < 5) o.count("base points with exact ties of mass parameters"); }
       J c = p.json();
       double mmin = std::min({std::fabs(p.mu), std::fabs(p.m1), std::fabs(p.m2), std::fabs(p.m3), p.ma});   // lightest SUSY mass parameter of the base point
       for (int g = 0; g < 3; ++g) mmin = std::min({mmin, p.ml[g], p.me[g], p.mq[g], p.mU[g], p.mD[g]});
